@@ -312,7 +312,7 @@ STABLE = {"bm": {"cond", "getblk", "getcf", "cflock", "exited"},
           "bch": {"sel", "bcast", "cancelsub", "exited"},
           "subh": {"sel", "exited"},
           "blkh": {"sel", "ntfn", "exited"},
-          "cfh": {"first", "cond", "qall", "cpq", "getblk", "retry", "exited"},
+          "cfh": {"first", "cond", "qall", "cpq", "getblk", "retry", "ntfn", "exited"},
           "rs": {"mark", "flock", "filter", "block", "cur"},
           "stop": {"connmgr", "bcast_wait", "utxo_wait", "wm_wait", "sub_wait", "bm_wait", "addr", "bw_wait",
                    "wg_wait"}}
@@ -462,6 +462,8 @@ class Conformance:
             return dict(step=0, what="no model state for this pool")
         for i, s in enumerate(tr["steps"]):
             a = s["act"]
+            if a["op"] == "Hang" and a.get("res") == "panic-before-stop":
+                return None      # the process died before Stop was called: not this model's business
             if a["op"] == "Hang":
                 o = s["obs"]
                 ok = False
@@ -563,8 +565,8 @@ def label(a):
         at = a.get("at") or {}
         s = "Hang[stop=%s,bm=%s,rs=%s,bch=%s,cfh=%s,blkh=%s,subh=%s,disp=%s]" % tuple(
             at.get(f, "") for f in ("stop", "bm", "rs", "bch", "cfh", "blkh", "subh", "disp"))
-        if a.get("res") == "panic":
-            s += "=panic"
+        if str(a.get("res", "")).startswith("panic"):
+            s += "=" + a["res"]
         return s
     if op == "Reopen":
         return "Reopen=%s" % ("ok" if str(a.get("res", "")).startswith("ok") else "fail")
@@ -682,6 +684,11 @@ def run(prop_id, tier, seed, replay=None):
             if live_res.get("holds") is None:
                 raise core.MachineryError("TLC liveness run on Shutdown failed: %s" % live_res.get("error", "?")[-1500:])
         hangs = [t for t in observed if any(s["act"]["op"] == "Hang" for s in t["steps"])]
+        early = [t for t in observed if any(s["act"].get("res") == "panic-before-stop" for s in t["steps"])]
+        for t in early[:3]:
+            print("note: the client process died BEFORE Stop was called in scenario %s (not judged by C17): %s"
+                  % (" ".join(label(s["act"]) for s in t["steps"]),
+                     (t["steps"][-1].get("dump") or "").split("\n")[0][:200]), file=os.sys.stderr)
         extra = {
             "config": {k: (v if k != "runs" else [dict(r, pairs=len(r["pairs"])) for r in v]) for k, v in cfg.items()
                        if k != "live"},
@@ -691,7 +698,7 @@ def run(prop_id, tier, seed, replay=None):
                                                    "fair select arms, no state constraint"),
             "scenarios": len(scn), "scenario_keys": len(keys),
             "model_stop_moments": tot, "model_stop_moments_sampled_on_real_client": hit,
-            "hung_scenarios": len(hangs),
+            "hung_scenarios": len(hangs), "client_died_before_stop": len(early),
             "stop_ms_max": max([s["t_ms"] for t in observed for s in t["steps"] if s["act"]["op"] == "StopRet"] or [0]),
         }
         if live_res.get("holds") is False:
